@@ -14,6 +14,7 @@ import CSD.Lemmas.HashRP
 import CSD.Lemmas.HashRPF
 import CSD.Lemmas.CodecRoundTrip
 import CSD.Lemmas.FM11
+import CSD.Lemmas.RPFC4
 
 namespace CSD.Props.C01
 open CSD CSD.PFC
@@ -233,5 +234,51 @@ theorem fm_models_match_source_text :
     Generated.body_FMINDEX_extract = SourceText.body_FMINDEX_extract ∧
     Generated.body_FMINDEX_build_ssa = SourceText.body_FMINDEX_build_ssa :=
   ⟨rfl, rfl, rfl, rfl, rfl, rfl, rfl, rfl⟩
+
+
+/-! ### RPFC -/
+
+/-- `StringDictionaryRPFC::extract` is exact over *any* grammar and symbol streams that store the
+front-coded dictionary (`RPFC.Stores`: plain bucket headers; behind each, string by string, symbols that
+expand to `VByte(lcp) ++ suffix ++ [255]`; shared prefixes below 16384, the limit recorded as K11): for
+every ID in `[1, n]` it returns the member with that rank — `decodeString` reads exactly one stored
+string, also when the VByte byte is `0xFF` (shared length 127), the value of the terminator mark — and no
+symbol is read past the bucket's stream. Which rules Re-Pair chose does not matter. -/
+theorem rpfc_extract_exact {S : List Str} {d : RPFC.D} (hst : RPFC.Stores S d) (i : Nat) (h1 : 1 ≤ i)
+    (h2 : i ≤ S.length) : RPFC.extract d i = some (S[i - 1]?) := RPFC.extract_stores hst i h1 h2
+
+/-- The hypothesis is what the driver checks (an executable predicate) on every RPFC object exported by
+the real code, before and after save/load: a successful check gives `Stores`. -/
+theorem rpfc_hypothesis_is_checked {S : List Str} {d : RPFC.D} (h : RPFC.storesB S d = true) : RPFC.Stores S d :=
+  RPFC.stores_of_storesB h
+
+/-- `decodeString` on a stream that stores `cur` after `prev` returns the shared length, rebuilds `cur`
+and leaves the stream at the next string. -/
+theorem rpfc_decodeString_exact (d : RPFC.D) (prev cur : Str) (σ τ : List Nat)
+    (hσ : d.g.expand σ = RPFC.entry d.maxchar prev cur) (hne : ∀ r ∈ σ, d.g.expandSym r ≠ [])
+    (hl : PFC.lcp prev cur < 16384) (hsuf : cur.drop (PFC.lcp prev cur) ≠ [])
+    (hmc : ∀ b ∈ cur, b.toNat ≠ d.maxchar) :
+    RPFC.decodeString d prev (σ ++ τ) = some (PFC.lcp prev cur, cur, τ) :=
+  RPFC.decodeString_spec d prev cur σ τ hσ hne hl hsuf hmc
+
+/-- The hypotheses of `rpfc_decodeString_exact` are satisfiable: "ab" after "a" over the rule-free grammar. -/
+example : ({ terminals := 256, rules := [] } : RePair.Grammar).expand [129, 98, 255] = RPFC.entry 255 [0x61] [0x61, 0x62] ∧
+    PFC.lcp [0x61] [0x61, 0x62] < 16384 ∧ ([0x61, 0x62] : Str).drop (PFC.lcp [0x61] [0x61, 0x62]) ≠ [] := by
+  refine ⟨?_, by decide, by decide⟩
+  simp [RPFC.entry, RPFC.natsOf, PFC.lcp, VByte.encode, RePair.Grammar.expand, RePair.Grammar.expandSym, RePair.expandWith]
+
+/-- The RPFC models were written against the current text of the C++ functions they mirror. -/
+theorem rpfc_models_match_source_text :
+    Generated.body_RPFC_decodeString = SourceText.body_RPFC_decodeString ∧
+    Generated.body_RPFC_decodeSymbol = SourceText.body_RPFC_decodeSymbol ∧
+    Generated.body_RPFC_getHeader = SourceText.body_RPFC_getHeader ∧
+    Generated.body_RPFC_locateBucket = SourceText.body_RPFC_locateBucket ∧
+    Generated.body_RPFC_locate = SourceText.body_RPFC_locate ∧
+    Generated.body_RPFC_extract = SourceText.body_RPFC_extract ∧
+    Generated.body_RPFC_locatePrefix = SourceText.body_RPFC_locatePrefix ∧
+    Generated.body_RPFC_locateBoundaryBuckets = SourceText.body_RPFC_locateBoundaryBuckets ∧
+    Generated.body_RPFC_searchPrefix = SourceText.body_RPFC_searchPrefix ∧
+    Generated.body_RPFC_searchDistinctPrefix = SourceText.body_RPFC_searchDistinctPrefix :=
+  ⟨rfl, rfl, rfl, rfl, rfl, rfl, rfl, rfl, rfl, rfl⟩
 
 end CSD.Props.C01
